@@ -25,14 +25,15 @@ CONSTANTS Fused,       \* TRUE: link-faithful (no own action while holding an un
           MaxHeight,    \* bound on commitment heights
           MaxDisc,      \* max disconnects
           Amts,         \* set of amounts (abstract units)
-          Cap,          \* capacity (abstract units), split evenly
+          Cap,          \* capacity (msat); for the split see PoorShare
           Rates,        \* fee rates the opener may propose (initial rate is 1)
           MaxFees,      \* max update_fee messages
           Openers,      \* set of parties that may be the opener (Init picks one)
           InitRate,     \* initial fee rate (sat/kw)
           SoftReest,    \* TRUE: allow channel_reestablish on live objects (SoftDisconnect; API level, needs ~Fused)
           F6Quirk,      \* TRUE: AdvanceCommitChainTail returns early while no unsignedAckedUpdates exist (as the code does)
-          F7Quirk       \* TRUE: restore appends pending-commit updates before older peer-local updates (as the code does)
+          F7Quirk,      \* TRUE: restore appends pending-commit updates before older peer-local updates (as the code does)
+          PoorShare     \* 0: even funding split; else the non-opener's initial balance in msat (opener holds the rest)
 
 Party == {"A", "B"}
 Other(p) == IF p = "A" THEN "B" ELSE "A"
@@ -68,8 +69,17 @@ Commit(h, li, ri, lh, rh, outs, ins, ob, tb, fee) ==
 CTail(c) == c[1]
 Tip(c)  == c[Len(c)]
 
-InitCommit == Commit(0, 0, 0, 0, 0, {}, {}, Cap \div 2, Cap \div 2, InitRate)
+\* The funding split.  PoorShare = 0: even split (what the fixtures do).  Otherwise the NON-opener starts
+\* with PoorShare msat (possibly below its reserve and below either party's dust limit - a fresh inbound
+\* channel) and the opener with the rest.  o = the opener.
+ShareOf(p, o, poor) == IF poor = 0 THEN Cap \div 2 ELSE IF p = o THEN Cap - poor ELSE poor
+InitCommitOf(p, o, poor) == Commit(0, 0, 0, 0, 0, {}, {}, ShareOf(p, o, poor), Cap - ShareOf(p, o, poor), InitRate)
+InitCommit == InitCommitOf("A", "A", 0)      \* the even split, either party's view
 
+InitDiskOf(p, o, poor) ==
+            [lc |-> InitCommitOf(p, o, poor), rc |-> InitCommitOf(p, o, poor), diff |-> NoCommit, diffUpd |-> <<>>,
+             ua |-> <<>>, uaSet |-> FALSE, rul |-> <<>>, lwr |-> FALSE, revlog |-> <<>>,
+             fwd |-> <<>>]
 InitDisk == [lc |-> InitCommit, rc |-> InitCommit, diff |-> NoCommit, diffUpd |-> <<>>,
              ua |-> <<>>, uaSet |-> FALSE, rul |-> <<>>, lwr |-> FALSE, revlog |-> <<>>,
              fwd |-> <<>>]      \* forwarding packages: one per revoked remote height
@@ -79,14 +89,15 @@ Init ==
   /\ Lidx = [p \in Party |-> 0] /\ Lhtlc = [p \in Party |-> 0]
   /\ Ridx = [p \in Party |-> 0] /\ Rhtlc = [p \in Party |-> 0]
   /\ Lmod = [p \in Party |-> {}] /\ Rmod = [p \in Party |-> {}]
-  /\ LC = [p \in Party |-> <<InitCommit>>] /\ RC = [p \in Party |-> <<InitCommit>>]
-  /\ disk = [p \in Party |-> InitDisk]
   /\ net = [p \in Party |-> <<>>]
   /\ phase = [p \in Party |-> "run"]
   /\ nadds = [p \in Party |-> 0] /\ ndisc = 0
   /\ released = [p \in Party |-> {}]
   /\ nfees = 0
   /\ opener \in Openers
+  /\ LC = [p \in Party |-> <<InitCommitOf(p, opener, PoorShare)>>]
+  /\ RC = [p \in Party |-> <<InitCommitOf(p, opener, PoorShare)>>]
+  /\ disk = [p \in Party |-> InitDiskOf(p, opener, PoorShare)]
   /\ bad = "none"
 
 -----------------------------------------------------------------------------
